@@ -91,7 +91,7 @@ def scratch_root(cid):
 
 
 def run_workers(cid, binpath, testname, tier, nworkers, deadline_s, scratch, extra_env=None, args=None,
-                hard_timeout_s=None, mem_kb=24 * 1024 * 1024):
+                hard_timeout_s=None, mem_kb=24 * 1024 * 1024, keep_logs=False):
     """Start nworkers subprocesses of a go test binary; return list of report dicts (+ distinct hash sets)."""
     seed = os.environ.get("VERIF_SEED", "0")
     procs = []
@@ -105,7 +105,8 @@ def run_workers(cid, binpath, testname, tier, nworkers, deadline_s, scratch, ext
         if extra_env:
             env.update(extra_env)
         ht = hard_timeout_s or (deadline_s * 2 + 300)
-        cmd = ["bash", "-c", 'ulimit -v %d; exec timeout -s KILL %d "$@"' % (mem_kb, ht), "w",
+        lim = "ulimit -v %d; " % mem_kb if mem_kb else ""  # race-detector binaries reserve terabytes of address space
+        cmd = ["bash", "-c", lim + 'exec timeout -s KILL %d "$@"' % ht, "w",
                binpath, "-test.run", "^" + testname + "$", "-test.timeout", "0", "-test.count", "1"] + (args or [])
         lf = open(os.path.join(wdir, "log.txt"), "w")
         p = subprocess.Popen(cmd, cwd=wdir, env=env, stdout=lf, stderr=subprocess.STDOUT)
